@@ -883,6 +883,35 @@ func genQuicShape(dir string) error {
 		})
 	}
 	fmt.Fprintf(&b, "/-- sendDummyChangeCipherSpec starts with `if hs.c.quic != nil { return nil }` -/\ndef ccsQuicReturnsFirst : Bool := %v\n\n/-- writeChangeCipherRecord calls of the TLS 1.3 client outside sendDummyChangeCipherSpec -/\ndef ccsDirectWrites : Nat := %d\n\n", first, direct)
+	// NextEvent hands a slot out by overwriting it with the zero QUICEvent{} (so a consumed slot can
+	// never be coalesced into); quicWriteCryptoData coalesces only into the last slot, same kind+level.
+	clears := false
+	if ne := need("UQUICConn.NextEvent"); ne != nil {
+		ast.Inspect(ne.Body, func(x ast.Node) bool {
+			as, ok := x.(*ast.AssignStmt)
+			if !ok || len(as.Lhs) != 1 || len(as.Rhs) != 1 {
+				return true
+			}
+			ix, ok := as.Lhs[0].(*ast.IndexExpr)
+			if !ok || !strings.HasSuffix(s.str(ix.X), ".events") || !strings.HasSuffix(s.str(ix.Index), ".nextEvent") {
+				return true
+			}
+			if cl, ok := as.Rhs[0].(*ast.CompositeLit); ok && s.str(cl.Type) == "QUICEvent" && len(cl.Elts) == 0 {
+				clears = true
+			}
+			return true
+		})
+	}
+	coalesce := false
+	if wc := need("Conn.quicWriteCryptoData"); wc != nil {
+		ast.Inspect(wc.Body, func(x ast.Node) bool {
+			if ifs, ok := x.(*ast.IfStmt); ok && s.str(ifs.Cond) == "last == nil || last.Kind != QUICWriteData || last.Level != level" {
+				coalesce = true
+			}
+			return true
+		})
+	}
+	fmt.Fprintf(&b, "/-- UQUICConn.NextEvent overwrites the slot it returns with `QUICEvent{}` -/\ndef nextEventClearsSlot : Bool := %v\n\n/-- quicWriteCryptoData appends a new event unless the last slot is WriteData of the same level -/\ndef writeCoalescesLastSameLevel : Bool := %v\n\n", clears, coalesce)
 	for _, m := range missing {
 		fmt.Fprintf(&b, "-- MISSING in %s: %s\n", src, m)
 	}
